@@ -22,7 +22,9 @@ type acct struct {
 	Storage map[string]string // hex slot -> hex of the stored (RLP) value
 }
 
-func (a *acct) empty() bool { return a == nil || (a.Nonce == 0 && a.Bal.Sign() == 0 && len(a.Code) == 0) }
+func (a *acct) empty() bool {
+	return a == nil || (a.Nonce == 0 && a.Bal.Sign() == 0 && len(a.Code) == 0)
+}
 
 type dumpT map[common.Address]*acct
 
